@@ -231,13 +231,13 @@ def run_int(M, case):
             # (with include_sign the extensible form wants its sign spelled out; an unsigned
             # numeral there is left unspecified)
             sign = {'int': '', 'int+sign': '+', 'pos': '+', 'neg': '-', 'uns': ''}[variant]
-            for prefix in ('x', '#', 'n=', ' '):
+            for prefix in ('x', '#', 'n=', ' ', 'id_'):
                 try:
                     q = prefix + pe
                 except Exception as e:
                     M.expect(False, 'crash:' + type(e).__name__, 'prefix + extensible integer', 'int-ext')
                     continue
-                for N in cands[:14]:
+                for N in cands[:10] + [c for c in cands if not canonical(c)]:
                     if variant in ('pos', 'neg') and canonical(N) and int(N) == 0:
                         continue
                     exp = int_ok(N, a, b)
@@ -248,9 +248,19 @@ def run_int(M, case):
 
 def run_int_invalid(M, case):
     for variant in INT_VARIANTS:
-        for (a, b, exc) in [(-1, 5, (T_VALUE,)), (6, 5, (T_VALUE,)), (1.5, 5, (T_TYPE,)), (1, '5', (T_TYPE,)), (None, 5, (T_TYPE,)),
-                            (0, None, (T_TYPE,)), ('0', 5, (T_TYPE,)), (-3, -1, (T_VALUE,)), (10, 9, (T_VALUE,))]:
-            M.build('%s(%r,%r)' % (variant, a, b), lambda: make_int(variant, a, b), exc)
+        for a in (-1, 0, 1, 6, 10, 1.5, '0', None, -3):
+            for b in (-1, 0, 5, 9, 10, 2147483647, '5', 2.5, None):
+                for ext in (False, True):
+                    bad = set()
+                    if not isinstance(a, int) or not isinstance(b, int):
+                        exc = (T_TYPE,)
+                    else:
+                        if a < 0:
+                            bad.add(T_VALUE)
+                        if a > b:
+                            bad.add(T_VALUE)
+                        exc = tuple(bad)
+                    M.build('%s(%r,%r,ext=%r)' % (variant, a, b, ext), lambda: make_int(variant, a, b, ext), exc or None)
 
 
 # =========================================================================== C16 Decimal
@@ -297,13 +307,55 @@ def run_dec(M, case):
                         M.expect(g2 == [tok], 'meta:rejects-valid', '%s.get_matches(%r) = %r, expected [%r]' % (what, l + tok + r, g2, tok), 'dec-embedded')
 
 
+def _isint(v):
+    return isinstance(v, int) and not isinstance(v, bool)
+
+
+def dec_bounds_expect(mn, mx):
+    """documented validation of (min_decimal, max_decimal): set of acceptable exception names (empty = valid)"""
+    bad = set()
+    if not _isint(mn):
+        bad.add(T_TYPE)
+    elif mn < 1:
+        bad.add(T_VALUE)
+    if mx is not None and not _isint(mx):
+        bad.add(T_TYPE)
+    elif mx is not None and _isint(mn) and mn > mx:
+        bad.add(T_VALUE)
+    elif mx is not None and mx < 1:
+        bad.add(T_VALUE)
+    return tuple(sorted(bad))
+
+
+def int_bounds_expect(a, b):
+    bad = set()
+    if not isinstance(a, int) or not isinstance(b, int):
+        bad.add(T_TYPE)
+        return tuple(bad)
+    if isinstance(a, bool) or isinstance(b, bool):
+        return None          # bool for int: not spelled out for these parameters
+    if a < 0:
+        bad.add(T_VALUE)
+    if a > b:
+        bad.add(T_VALUE)
+    return tuple(sorted(bad))
+
+
 def run_dec_invalid(M, case):
+    mins = [0, -1, 1, 2, 3, 1.5, '1', True, None]
+    maxs = [None, 0, 1, 2, 3, 5, -1, 2.5, '3', True]
     for variant, (sg, mk) in DEC_VARIANTS.items():
-        for (mn, mx, exc) in [(0, None, (T_VALUE,)), (-1, 3, (T_VALUE,)), (3, 2, (T_VALUE,)), (1.5, None, (T_TYPE,)), ('1', None, (T_TYPE,)),
-                              (True, None, (T_TYPE,)), (1, 2.5, (T_TYPE,)), (1, '3', (T_TYPE,)), (1, True, (T_TYPE, T_VALUE)), (None, None, (T_TYPE,))]:
-            M.build('%s(0,5,%r,%r)' % (variant, mn, mx), lambda: mk(0, 5, mn, mx), exc)
-        for (a, b, exc) in [(-1, 5, (T_VALUE,)), (6, 5, (T_VALUE,)), (1.5, 5, (T_TYPE,)), (1, '5', (T_TYPE,))]:
-            M.build('%s(%r,%r)' % (variant, a, b), lambda: mk(a, b), exc)
+        for mn in mins:
+            for mx in maxs:
+                for ext in (False, True):
+                    exc = dec_bounds_expect(mn, mx)
+                    M.build('%s(0,5,%r,%r,is_extensible=%r)' % (variant, mn, mx, ext), lambda: mk(0, 5, mn, mx, is_extensible=ext), exc or None)
+        for a in (-1, 0, 1, 6, 1.5, '1', None):
+            for b in (-1, 0, 5, 7, '5', 2.5, None):
+                exc = int_bounds_expect(a, b)
+                if exc is None:
+                    continue
+                M.build('%s(%r,%r)' % (variant, a, b), lambda: mk(a, b), exc or None)
 
 
 # =========================================================================== C17 Numeral / Word
@@ -358,19 +410,63 @@ def run_numeral(M, case):
                      "('#'+%s(ext)+'#').is_exact_match(%r) is %r" % (what, '#' + s + '#', got), 'numeral-ext')
 
 
+def numeral_expect(base, nmin, nmax):
+    bad = set()
+    if not isinstance(base, int):
+        bad.add(T_TYPE)
+    elif isinstance(base, bool):
+        bad |= {T_TYPE, T_VALUE}
+    elif base < 2 or base > 16:
+        bad.add(T_VALUE)
+    if not _isint(nmin):
+        bad.add(T_TYPE)
+    elif nmin < 0:
+        bad.add(T_VALUE)
+    if nmax is not None and not _isint(nmax):
+        bad.add(T_TYPE)
+    elif nmax is not None and nmax < 0:
+        bad.add(T_VALUE)
+    elif nmax is not None and _isint(nmin) and nmax < nmin:
+        bad.add(T_VALUE)
+    return tuple(sorted(bad))
+
+
+def word_expect(mn, mx):
+    bad = set()
+    if isinstance(mn, bool) or isinstance(mx, bool):
+        return None
+    if not isinstance(mn, int):
+        bad.add(T_TYPE)
+    elif mn < 1:
+        bad.add(T_VALUE)
+    if mx is not None and not isinstance(mx, int):
+        bad.add(T_TYPE)
+    elif mx is not None and mx < 1:
+        bad.add(T_VALUE)
+    elif mx is not None and isinstance(mn, int) and mn > mx:
+        bad.add(T_VALUE)
+    return tuple(sorted(bad))
+
+
 def run_numeral_invalid(M, case):
-    for (base, nmin, nmax, exc) in [(1, 1, None, (T_VALUE,)), (17, 1, None, (T_VALUE,)), (0, 1, None, (T_VALUE,)), (-2, 1, None, (T_VALUE,)),
-                                    (2.5, 1, None, (T_TYPE,)), ('10', 1, None, (T_TYPE,)), (None, 1, None, (T_TYPE,)),
-                                    (10, -1, None, (T_VALUE,)), (10, 1.5, None, (T_TYPE,)), (10, '1', None, (T_TYPE,)), (10, True, None, (T_TYPE,)),
-                                    (10, None, None, (T_TYPE,)), (10, 1, -1, (T_VALUE,)), (10, 3, 2, (T_VALUE,)), (10, 1, 2.5, (T_TYPE,)),
-                                    (10, 1, '2', (T_TYPE,)), (10, 1, True, (T_TYPE,))]:
-        M.build('Numeral(%r,%r,%r)' % (base, nmin, nmax), lambda: ME.Numeral(base, nmin, nmax), exc)
-    for (mn, mx, exc) in [(0, None, (T_VALUE,)), (-1, None, (T_VALUE,)), (1.5, None, (T_TYPE,)), ('1', None, (T_TYPE,)), (None, None, (T_TYPE,)),
-                          (1, 0, (T_VALUE,)), (1, -2, (T_VALUE,)), (3, 2, (T_VALUE,)), (1, 2.5, (T_TYPE,)), (1, '2', (T_TYPE,))]:
-        M.build('Word(%r,%r)' % (mn, mx), lambda: ME.Word(mn, mx), exc)
+    for base in (1, 2, 10, 16, 17, 0, -2, 2.5, '10', None, True):
+        for nmin in (0, 1, 3, -1, 1.5, '1', True, None):
+            for nmax in (None, 0, 1, 2, 5, -1, 2.5, '2', True):
+                for ext in (False, True):
+                    exc = numeral_expect(base, nmin, nmax)
+                    M.build('Numeral(%r,%r,%r,ext=%r)' % (base, nmin, nmax, ext), lambda: ME.Numeral(base, nmin, nmax, is_extensible=ext), exc or None)
+    for mn in (0, 1, 2, 3, -1, 1.5, '1', None):
+        for mx in (None, 0, 1, 2, 5, -2, 2.5, '2'):
+            for g in (True, False):
+                exc = word_expect(mn, mx)
+                if exc is None:
+                    continue
+                M.build('Word(%r,%r,is_global=%r)' % (mn, mx, g), lambda: ME.Word(mn, mx, is_global=g), exc or None)
     for cls in (ME.WordContains, ME.WordStartsWith, ME.WordEndsWith):
-        for arg in (5, None, ['a', 5], [None], 1.5, ['a', ['b']], b'a'):
+        for arg in (5, None, ['a', 5], [None], 1.5, ['a', ['b']], b'a', ['ok', b'x'], [1]):
             M.build('%s(%r)' % (cls.__name__, arg), lambda: cls(arg), (T_TYPE,))
+        for arg in ('a', ['a'], ['a', 'b.c'], 'x$'):
+            M.build('%s(%r)' % (cls.__name__, arg), lambda: cls(arg))
 
 
 WORDCH = 'abcXYZ019_'
@@ -650,9 +746,24 @@ def run_date_invalid(M, case):
 
 
 # =========================================================================== cases per check
+def is_c03(symptom):
+    return (symptom or '').startswith(('crash:', 'uncompilable:'))
+
+
 def cases(check, tier, seed, shard, nshards):
     rnd = random.Random((seed * 104729 + shard) * 17 + int(check[1:]))
     big = tier == 'thorough'
+    if check == 'C03':
+        # every meta family, valid and documented-invalid arguments, under the C03 oracle only
+        for sub in ('C15', 'C16', 'C17', 'C18', 'C19'):
+            for i, c in enumerate(cases(sub, tier, seed, shard, nshards)):
+                if c['kind'].endswith('-invalid') or i % (1 if big else 6) == 0:
+                    if 'strings' in c:
+                        c = dict(c, strings=c['strings'][:20])
+                    if 'octets' in c:
+                        c = dict(c, octets=c['octets'][:6])
+                    yield c
+        return
     if check == 'C15':
         if shard == 0:
             yield {'kind': 'int-invalid'}
@@ -758,6 +869,8 @@ def run_shard(ctx):
         if ncases % 7 == 1 and len(samples) < 5:
             samples.append({k: (v if not isinstance(v, list) else v[:6]) for k, v in case.items()})
         for v in M.viols[before:]:
+            if check == 'C03' and not is_c03(v['symptom']):
+                continue
             sig = sig_of(v)
             nviol[sig] += 1
             if nviol[sig] <= 2 and len(viols) < 40:
